@@ -63,10 +63,14 @@ def run(module, cfg=None, workers=16, env=None, timeout=1800, simulate=None, dep
             p = subprocess.run(cmd, cwd=SPEC, env=e, stdout=lf, stderr=subprocess.STDOUT, timeout=timeout)
     except subprocess.TimeoutExpired:
         shutil.rmtree(meta, ignore_errors=True)
+        try: shutil.copyfile(logp, os.path.join(OUT, f"tlc_{tag}.log"))
+        except OSError: pass
         raise TlcError(f"TLC timeout after {timeout}s on {module}")
     finally:
         shutil.rmtree(meta, ignore_errors=True)
     res.wall = time.time() - t0
+    try: shutil.copyfile(logp, os.path.join(OUT, f"tlc_{tag}.log"))      # stable name for callers that read the log of a failed run
+    except OSError: pass
     with open(logp, errors="replace") as f:
         for line in f:
             line = line.rstrip("\n")
